@@ -1,10 +1,20 @@
 import WuffsVerif.Common.Line
 import WuffsVerif.Model.Det
+import WuffsVerif.Model.DetBuild
+import WuffsVerif.Model.DetRelease
 /-! Line driver for C20.  Ops:
   listdir <dir-hex> <suffix-hex> <0|1> <name-hex>:<d|f> …   -> files=<hex,…|-> dirs=<hex,…|->
       (entries in the order they were created; the model is `Det.listDir`)
   topo <qid>:<fieldqid>,<fieldqid>… <qid>: …                 -> ok <i,j,…> | cycle
       (structs in declaration order, QIDs as numbers; the model is `Det.topoSort`)
+  findfiles <root-hex> <suffix-hex> d:<path-hex>:<name-hex>.<d|f>,… …   -> files=<hex,…|-> | err
+      (one d: token per directory of the tree, entries in creation order; `Det.findFiles`)
+  genplan <root-hex> a:<dir-hex>:<0|1> … d:<path-hex>:<entries> … u:<file-hex>:<use-hex>,… …
+      -> plan <dir-hex>=<file-hex>,…;… rel <hex,…|-> | err
+      (`wuffs gen` arguments, the package tree, the `use` paths per source file; `Det.genPlan`, then
+       `Det.releaseArgs` over the outputs of the plan)
+  release <rel-hex>:<include-hex>,… …                           -> ok <hex,…|-> | err
+      (`wuffs-c genrelease` arguments in command-line order with their #include targets; `Det.assemble`)
 -/
 open WuffsVerif WuffsVerif.Line WuffsVerif.Det
 
@@ -29,6 +39,50 @@ def parseStruct (s : String) : Option StructDecl :=
     | _, _ => none
   | _ => none
 
+def parseEnt (s : String) : Option DirEntry :=
+  match s.splitOn "." with
+  | [h, "d"] => (bytesOfHex h).map (fun n => ⟨n, true⟩)
+  | [h, "f"] => (bytesOfHex h).map (fun n => ⟨n, false⟩)
+  | _ => none
+
+def parseHexList (s : String) : Option (List (List Nat)) :=
+  if s == "" then some [] else (s.splitOn ",").mapM bytesOfHex
+
+/-- tokens `d:<path>:<entries>` as an association list path ↦ enumeration -/
+def parseDirs (toks : List String) : Option (List (List Nat × List DirEntry)) :=
+  (toks.filter (·.startsWith "d:")).mapM (fun t =>
+    match t.splitOn ":" with
+    | [_, p, es] =>
+      match bytesOfHex p, (if es == "" then some [] else (es.splitOn ",").mapM parseEnt) with
+      | some p, some es => some (p, es)
+      | _, _ => none
+    | _ => none)
+
+def fsOfDirs (dirs : List (List Nat × List DirEntry)) : FS := fun p => List.lookup p dirs
+
+def parseUses (toks : List String) : Option (List (List Nat × List (List Nat))) :=
+  (toks.filter (·.startsWith "u:")).mapM (fun t =>
+    match t.splitOn ":" with
+    | [_, f, us] =>
+      match bytesOfHex f, parseHexList us with
+      | some f, some us => some (f, us)
+      | _, _ => none
+    | _ => none)
+
+def parseArgs (toks : List String) : Option (List (List Nat × Bool)) :=
+  (toks.filter (·.startsWith "a:")).mapM (fun t =>
+    match t.splitOn ":" with
+    | [_, d, r] => if r != "0" && r != "1" then none else (bytesOfHex d).map (fun d => (d, r == "1"))
+    | _ => none)
+
+def parseCFile (t : String) : Option CFile :=
+  match t.splitOn ":" with
+  | [r, incs] =>
+    match bytesOfHex r, parseHexList incs with
+    | some r, some incs => some ⟨r, incs⟩
+    | _, _ => none
+  | _ => none
+
 def c20Step (l : List String) : String :=
   match l with
   | "listdir" :: dir :: suffix :: sd :: ents =>
@@ -38,6 +92,31 @@ def c20Step (l : List String) : String :=
       let r := listDir d sfx (sd == "1") es
       "files=" ++ showNames r.1 ++ " dirs=" ++ showNames r.2
     | _, _, _ => "bad-op"
+  | "findfiles" :: root :: suffix :: toks =>
+    match bytesOfHex root, bytesOfHex suffix, parseDirs toks with
+    | some root, some sfx, some dirs =>
+      match findFiles (fsOfDirs dirs) 200 root sfx with
+      | some fs => "files=" ++ showNames fs
+      | none => "err"
+    | _, _, _ => "bad-op"
+  | "genplan" :: root :: toks =>
+    match bytesOfHex root, parseArgs toks, parseDirs toks, parseUses toks with
+    | some root, some args, some dirs, some uses =>
+      match genPlan (fsOfDirs dirs) (fun f => (List.lookup f uses).getD []) root 400 args with
+      | none => "err"
+      | some plan =>
+        let ps := plan.map (fun e => hexOfBytes e.1 ++ "=" ++ ",".intercalate (e.2.map hexOfBytes))
+        match releaseArgs (fsOfPlan root plan) 4 root with
+        | some rel => "plan " ++ ";".intercalate ps ++ " rel " ++ showNames rel
+        | none => "err"
+    | _, _, _, _ => "bad-op"
+  | "release" :: files =>
+    match files.mapM parseCFile with
+    | some fs =>
+      match assemble fs with
+      | some order => "ok " ++ showNames order
+      | none => "err"
+    | none => "bad-op"
   | "topo" :: structs =>
     match structs.mapM parseStruct with
     | some ns =>
